@@ -1,3 +1,4 @@
+pub mod site;
 pub mod driver;
 pub mod findings;
 pub mod noaslr;
